@@ -147,7 +147,8 @@ def submit(npool: int, c: int, twin: bool = False, real: bool = False):
 
 def head_change(change: int, twin: bool = False, real: bool = False):
     """0 extension mining member A; 1 extension mining a transaction that conflicts with A; 2 switch to the sibling fork
-    (reward-only tip, lacks member D's input: the parent's reward output); 3 as 2 but starting on the fork and switching to P's extension."""
+    (reward-only tip, lacks member D's input: the parent's reward output); 3 as 2 but starting on the fork and switching to P's extension;
+    4-7 an extension that mines several members at once (A+B, B+C, A+B+C adjacent in the pool; A+C not adjacent)."""
     W, ns = _setup(real, served_head="P" if change != 3 else "F")
     dt = W.dt
 
@@ -180,8 +181,12 @@ def head_change(change: int, twin: bool = False, real: bool = False):
         elif change == 2:
             new = W.env.cstate.CoinState(state.block_by_hash, state.unspent_transaction_outs_by_hash, state.block_by_height_by_hash,
                                          state.heads, W.F.hash())
-        else:
+        elif change == 3:
             new = state.add_block_no_validation(W.candidate(state, [cb, C], 3000))
+        else:
+            # one head change that invalidates SEVERAL pending transactions, adjacent in the pool
+            mined = {4: [A, B], 5: [B, C], 6: [A, B, C], 7: [A, C]}[change]
+            new = state.add_block_no_validation(W.candidate(state, [cb] + mined, 3000))
         try:
             cm.set_coinstate(new)
         except Exception:
@@ -377,6 +382,10 @@ def obligations(tier: str, known: List[str]) -> List[Ob]:
     for ch, nm in enumerate(("extension-mines-member", "extension-mines-conflict", "switch-to-reward-only-fork-tip", "switch-from-fork")):
         obs.append(Ob("head-change[%s]" % nm, C_EVICT + "; " + C_INV, "head_change", {"change": ch}, timeout=T))
     obs.append(twin_of(obs[-2], timeout=300))
+    for ch, nm in ((4, "extension-mines-two-adjacent-members[A,B]"), (5, "extension-mines-two-adjacent-members[B,C]"),
+                   (6, "extension-mines-three-adjacent-members"), (7, "extension-mines-two-separated-members")):
+        if thorough or ch in (4, 6):
+            obs.append(Ob("head-change[%s]" % nm, C_EVICT + "; " + C_INV, "head_change", {"change": ch}, timeout=T))
     obs.append(Ob("head-change-during-submission", C_INV, "concurrent_head_change", {}, timeout=T))
     obs.append(Ob("resubmission-after-head-change", C_ADM, "resubmission", {}, timeout=T))
     obs.append(Ob("relay-once", C_RELAY, "relay", {}, timeout=T))
